@@ -415,3 +415,70 @@ func GenStress(t *rapid.T) (files map[string]string, main string, desc []string)
 	files["main.ddp"] = sb.String()
 	return files, "main.ddp", desc
 }
+
+// ---------------------------------------------------------------- diagnostic shapes (C07)
+
+var validBits = []string{
+	"Die Zahl z ist 1.\n", "Der Text t ist \"hällo €\".\n", "Die Zahlen Liste l ist eine Liste, die aus 1, 2, 3 besteht.\n",
+	"Die Funktion f mit dem Parameter a vom Typ Zahl, gibt eine Zahl zurück, macht:\n\tGib a plus 1 zurück.\nUnd kann so benutzt werden:\n\t\"f <a>\"\n",
+	"Die Funktion todo gibt nichts zurück, macht:\n\t...\nUnd kann so benutzt werden:\n\t\"todo\"\n",
+	"Wir nennen die Kombination aus\n\tder Zahl x mit Standardwert 1,\neinen Punkt, und erstellen sie so:\n\t\"ein Punkt\"\n",
+	"Die generische Funktion g mit dem Parameter a vom Typ T, gibt einen T zurück, macht:\n\tGib a zurück.\nUnd kann so benutzt werden:\n\t\"g <a>\"\n",
+	"Wenn wahr, dann:\n\tDie Zahl innen ist 2.\n", "Für jede Zahl i von 1 bis 3, mache:\n\t...\n", "[ ein Kommentar ]\n",
+	"Die Funktion spaeter mit dem Parameter a vom Typ Zahl, gibt eine Zahl zurück, wird später definiert\nUnd kann so benutzt werden:\n\t\"spaeter <a>\"\n",
+	"Die Funktion spaeter2 gibt nichts zurück, wird später definiert\nUnd kann so benutzt werden:\n\t\"spaeter2\"\n",
+	"Die Funktion spaeter macht:\n\tGib a zurück.\n",
+}
+var faultyBits = []string{
+	"Die Zahl q ist \"text\".\n", "Die Zahl q ist unbekannt.\n", "Speichere 1 in nirgends.\n", "Die Zahl z ist 2.\n", "Der Zahl m ist 1.\n", "Die Zahl ist 1.\n",
+	"Die Variable v ist (g \"x\" plus 1).\n", "Die Zahl r ist (f \"falsch\").\n", "Die Zahl r ist (f 1 2).\n", "Verlasse die Schleife.\n", "Gib 1 zurück.\n",
+	"Die Funktion h mit dem Parameter a vom Typ Zahl, gibt eine Zahl zurück, macht:\n\tSpeichere 1 in a.\nUnd kann so benutzt werden:\n\t\"h <b>\"\n",
+	"Die Funktion h2 mit dem Parameter a vom Typ Zahl, gibt eine Zahl zurück, macht:\n\tGib \"t\" zurück.\nUnd kann so benutzt werden:\n\t\"h2 <a> <a>\"\n",
+	"Die generische Funktion gg mit dem Parameter a vom Typ T, gibt einen T zurück, macht:\n\tGib a plus 1 zurück.\nUnd kann so benutzt werden:\n\t\"gg <a>\"\nDer Text tt ist (gg \"x\").\n",
+	"Die Funktion k gibt eine Zahl zurück, macht:\n\tDie Zahl lokal ist 1.\nUnd kann so benutzt werden:\n\t\"k\"\n",
+	"Wenn 1, dann:\n\tDie Zahl w ist 1.\n", "Die Zahl e ist 1", "Der Text u ist \"offen.\n", "Der Buchstabe c ist 'ab'.\n", "Die Zahl gross ist 99999999999999999999.\n", "Der Text esc ist \"a\\qb\".\n",
+	"Der Alias \"f neu <a>\" steht für die Funktion f.\n", "Der Alias \"kaputt <zz>\" steht für die Funktion f.\n", "Binde \"gibtsnicht\" ein.\n", "Binde \"kaputt\" ein.\n", "Binde nix aus \"gut\" ein.\n", "Binde \"gut\" ein.\n",
+	"Die Zahl x1 ist 1 plus.\n", "Die Zahl x2 ist (1 plus 2.\n", "Wir nennen eine Unbekannt auch eine Neu.\n", "Die öffentliche Zahl oe ist 1.\n\tDie öffentliche Zahl oe2 ist 2.\n",
+}
+
+// GenDiagShapes builds small programs from valid and faulty statements in generated order, with generated
+// line-break conventions and an optional broken / fine imported module.
+func GenDiagShapes(t *rapid.T) (files map[string]string, main string, desc []string) {
+	files = map[string]string{
+		"gut.ddp":    "Die öffentliche Funktion gut gibt eine Zahl zurück, macht:\n\tGib 1 zurück.\nUnd kann so benutzt werden:\n\t\"gut\"\n",
+		"kaputt.ddp": "Die öffentliche Funktion kap gibt eine Zahl zurück, macht:\n\tGib \"t\" zurück.\nUnd kann so benutzt werden:\n\t\"kap\"\nDie Zahl ist.\n",
+	}
+	var sb strings.Builder
+	n := rapid.IntRange(0, 6).Draw(t, "nvalid")
+	nf := rapid.IntRange(0, 2).Draw(t, "nfaulty")
+	var bits []string
+	for i := 0; i < n; i++ {
+		bits = append(bits, rapid.SampledFrom(validBits).Draw(t, "v"))
+	}
+	for i := 0; i < nf; i++ {
+		at := rapid.IntRange(0, len(bits)).Draw(t, "pos")
+		fb := rapid.SampledFrom(faultyBits).Draw(t, "f")
+		desc = append(desc, strings.SplitN(fb, "\n", 2)[0])
+		bits = append(bits[:at:at], append([]string{fb}, bits[at:]...)...)
+	}
+	for _, b := range bits {
+		sb.WriteString(b)
+		if rapid.Bool().Draw(t, "blank") {
+			sb.WriteString("\n")
+		}
+	}
+	s := sb.String()
+	switch rapid.IntRange(0, 4).Draw(t, "eol") {
+	case 0:
+		s = strings.TrimRight(s, "\n")
+		desc = append(desc, "no-final-newline")
+	case 1:
+		s = strings.ReplaceAll(s, "\n", "\r\n")
+		desc = append(desc, "crlf")
+	case 2:
+		s = strings.TrimRight(s, "\n.")
+		desc = append(desc, "cut-last-dot")
+	}
+	files["main.ddp"] = s
+	return files, "main.ddp", desc
+}
